@@ -332,3 +332,7 @@ def numbering_clauses(run, all_atom=True, shared=False):
 
 
 PROP = C12()
+
+# shape families added after the first complete pass (DESIGN 8.6-8.11); appended to the bounds written into the evidence
+BOUNDS_ADDED = '; plus: from_graph with the base graph built in reverse order (compared as graph values; unambiguous cases without shared atoms), zero-order / virtual-node / 11-12 node templates'
+PROP.BOUNDS = {k: v + BOUNDS_ADDED for k, v in PROP.BOUNDS.items()}
